@@ -295,7 +295,8 @@ def check(ctx):
             x = flow.strip(ns) if ns else ("unknown",)
             if x[0] == "try":
                 c = flow.strip(x[1])
-                if c[0] == "call" and flow.short(c[1]).endswith("TryInto::try_into"):
+                # the field has type State, so either spelling resolves to `TryFrom<VarInt> for State`
+                if c[0] == "call" and flow.short(c[1]).endswith(("TryInto::try_into", "TryFrom::try_from")) and calls_in(c, "read_varint"):
                     ok = True
         ctx.check(ok, RN, "C06/next-state/routed", hb.loc,
                   reason="HandshakePacket.next_state is not decoded through State::try_from with `?`",
@@ -303,47 +304,6 @@ def check(ctx):
 
 
 def enum_decode_table(ctx, body):
-    """{int: Variant} for a `match value { n => Ok(E::V), _ => Err(..) }` body; other shapes -> {}"""
-    an = ctx.an(body)
-    tbl = {}
-    sw = [b for b in body.blocks if b.term.kind == "switch" and not b.cleanup]
-    if len(sw) != 1:
-        return {}
-    t = sw[0].term
-    for v, tb in t.arms:
-        cur = tb
-        found = None
-        for _ in range(5):
-            blk = body.blocks[cur]
-            for s in blk.stmts:
-                if s.kind == "assign" and s.place.is_local() and s.place.local == 0 and s.rv.k == "agg":
-                    if s.rv.j["variant"] == "Ok":
-                        e = flow.strip(an.operand_expr(s.rv.ops[0], (cur, 10 ** 6)))
-                        if e[0] == "agg":
-                            found = e[1].split("::")[-1]
-                    else:
-                        found = "Err"
-            if found:
-                break
-            ss = blk.term.successors()
-            if len(ss) != 1:
-                break
-            cur = ss[0]
-        tbl[v] = found
-    # otherwise must be Err
-    cur = t.otherwise
-    oth = None
-    for _ in range(5):
-        blk = body.blocks[cur]
-        for s in blk.stmts:
-            if s.kind == "assign" and s.place.is_local() and s.place.local == 0 and s.rv.k == "agg":
-                oth = s.rv.j["variant"]
-        if oth:
-            break
-        ss = blk.term.successors()
-        if len(ss) != 1:
-            break
-        cur = ss[0]
-    if oth != "Err":
-        tbl["otherwise"] = oth
-    return tbl
+    """{int: Variant} of a TryFrom<VarInt> body (path enumeration: any mix of match / if / early return)"""
+    from .. import codec
+    return codec.decode_table(ctx, body)
